@@ -116,6 +116,16 @@ func main() {
 	if *replay != "" {
 		os.Exit(doReplayCmd(id, *replay))
 	}
+	if pin := os.Getenv("SSASYM_PIN"); pin != "" {
+		var rf ReplayFile
+		if b, err := os.ReadFile(pin); err == nil && json.Unmarshal(b, &rf) == nil {
+			pinned = map[string]*big.Int{}
+			for _, v := range rf.Values {
+				n, _ := new(big.Int).SetString(v.Value, 10)
+				pinned[v.Name] = n
+			}
+		}
+	}
 	if pf := os.Getenv("SSASYM_PROF"); pf != "" {
 		f, _ := os.Create(pf)
 		pprof.StartCPUProfile(f)
@@ -330,6 +340,13 @@ func runHarness(prog *ssa.Program, models map[string]*ssa.Function, hp *ssa.Pack
 	sum := &Summary{Harness: fn.Name(), Paths: e.paths, Instrs: atomic.LoadInt64(&e.instrs), Asserts: e.asserts, AssertsOK: e.assertsOK, Findings: e.findings,
 		FuncsSeen: e.funcsSeen, Models: e.usedModel, PathEnds: e.pathEnds, Bounds: e.bounds, MustCover: e.mustCover, SitesHit: e.sitesHit, Witnesses: e.pathWitness,
 		Wall: time.Since(t0), Ifconv: e.ifconv, UnwindChk: e.unwindChecked, UnwindFail: e.unwindFailed, FeasUnknown: e.feasUnknown, GoSpawned: e.goSpawned, GoBlocked: e.goBlockedAtEnd, PanicsChk: e.panicsChecked}
+	if verbose {
+		for i, f := range e.findings {
+			if i < 12 {
+				fmt.Printf("   finding %s: %s @ %s\n", f.Kind, f.Msg, f.Site)
+			}
+		}
+	}
 	sum.SitesStatic = staticSites(prog, fn)
 	for k := range sum.MustCover {
 		if e.funcsSeen[k] > 0 {
@@ -639,6 +656,12 @@ func doCheck(id, tier, only string, verbose bool, workers, seed int, noNative bo
 	for _, s := range sums {
 		for i, wv := range s.Witnesses {
 			rf := ReplayFile{Property: id, Harness: s.Harness, Package: dirOf[s.Harness], Expect: "pass", Values: modelValues(wv.Nondets, wv.Model)}
+			if verbose && pinned != nil {
+				for _, o := range wv.Obs {
+					c, ok := canonObs(o.V, wv.Model)
+					fmt.Printf("   witness %d observe %s = %s (%v) raw=%v\n", i, o.Name, c, ok, describe(o.V))
+				}
+			}
 			p := filepath.Join(outDir, "replay", fmt.Sprintf("%s-%s-witness-%d.json", id, s.Harness, i))
 			b, _ := json.MarshalIndent(rf, "", " ")
 			os.WriteFile(p, b, 0644)
